@@ -270,6 +270,26 @@ def runChecks (dn : Str) : St → List Req.Check → Except PyExc St
 
 /-! ### `tocimxml(value)` of a parameter value -/
 
+/-- `CIMProperty.tocimxml`: `assert self.type != 'reference'` for an array property (arrays of references have no
+    CIM-XML representation; the constructor accepts them) -/
+def refArrayProp : Prop_ → Bool
+  | .mk _ ty _ isArray _ _ _ _ _ _ => isArray && ty == "reference".toList
+
+def instAsserts : Inst → Bool
+  | .mk _ _ props _ => props.any refArrayProp
+
+def clsAsserts : Cls → Bool
+  | .mk _ _ _ props _ _ => props.any refArrayProp
+
+/-- `CIMInstance.tocimxml()` as the operation methods call it: AssertionError for an array-of-references property,
+    ValueError for a character XML cannot carry -/
+def instXml (C : Codec) (i : Inst) : Except PyExc Xml :=
+  if instAsserts i then .error .assertionError else checked (encInst C i)
+
+def clsXml (C : Codec) (c : Cls) : Except PyExc Xml :=
+  if clsAsserts c then .error .assertionError else checked (encCls C c)
+
+
 def nullItem : Xml := if Pywbem.Generated.sendValueNull then E "VALUE.NULL" [] [] else E "VALUE" [] []
 
 def boolText (b : Bool) : Str := if b then "TRUE".toList else "FALSE".toList
@@ -294,8 +314,8 @@ def argXml (C : Codec) : Arg → Except PyExc Xml
   | .bool b => .ok (valueElem (boolText b))
   | .int i => .ok (valueElem (intToStr i))
   | .className p | .instName p => checked (encPath C p)
-  | .inst i => checked (encInst C i)
-  | .cls c => checked (encCls C c)
+  | .inst i => instXml C i
+  | .cls c => clsXml C c
   | .qdecl q => checked (encQualDecl C q)
   | .other => .error .typeError
 
@@ -318,8 +338,8 @@ def tocimxmlValue (C : Codec) : Val → Except PyExc Xml
   | .array l => do let xs ← valueItemsXml C l; .ok (E "VALUE.ARRAY" [] xs)
   | .scalar .null => .error .valueError
   | .scalar (.ref p) => checked (encPath C p)
-  | .scalar (.einst i) => checked (encInst C i)
-  | .scalar (.ecls c) => checked (encCls C c)
+  | .scalar (.einst i) => instXml C i
+  | .scalar (.ecls c) => clsXml C c
   | .scalar a => checked (valueElem (atomText C a))
 
 /-! ### envelope -/
